@@ -31,8 +31,8 @@ func caseFields(kind string, g pl.Graph, obs ...Sx) []Sx {
 }
 
 // sweep plans every DAG on n commits selected by keep under every hash order selected by takeOrder.
-// With dedup, one case is written per (graph, distinct pair of plans) with the number of hash orders
-// that produced it.
+// With dedup, one case is written per (graph, distinct plan) with the number of plannings that produced
+// it (the ranks are those of the first hash order that did).
 func sweep(c *Config, kind string, n int, keep func(parents [][]int) bool, takeOrder func(k int) bool, dedup bool, workers int) {
 	perms := pl.Perms(n)
 	total := pl.NumMasks(n)
@@ -63,16 +63,21 @@ func sweep(c *Config, kind string, n int, keep func(parents [][]int) bool, takeO
 						}
 						g := pl.FromParents(parents, ranks)
 						obs := plansOf(g)
-						if dedup {
-							key := obs.String()
+						if !dedup {
+							lines = append(lines, caseFields(kind, g, obs))
+							continue
+						}
+						// one case per distinct plan of this graph (either planning), with its multiplicity
+						for _, one := range obs.Args() {
+							key := one.String()
 							if at, ok := seen[key]; ok {
 								mult[at]++
 								continue
 							}
 							seen[key] = len(lines)
 							mult = append(mult, 1)
+							lines = append(lines, caseFields(kind, g, T("plans", one)))
 						}
-						lines = append(lines, caseFields(kind, g, obs))
 					}
 					if dedup {
 						for i := range lines {
@@ -145,7 +150,7 @@ func main() {
 		g := pl.RandomGraph(c.Rng, 14)
 		c.Emit(caseFields("rnd", g, plansOf(g))...)
 	}
-	for i := c.Count(400, 20000); i > 0; i-- {
+	for i := c.Count(400, 8000); i > 0; i-- {
 		g := pl.RandomGraph(c.Rng, 40)
 		c.Emit(caseFields("rndbig", g, plansOf(g))...)
 	}
